@@ -460,7 +460,26 @@ fn meaning_str(m: &[DefinitionInterpretation]) -> String {
 /// Full round trip of a sequence of shapes of identical kinds ("batches"). `pages`: how the batches are
 /// grouped into separately serialized pages (each page -> one RepDefUnraveler of a composite).
 /// `corrupt`: selftest, flips one observed level before unravelling.
-pub fn roundtrip(shapes: &[Shape], pages: &[usize], mut garbage: Option<&mut Rng>, corrupt: bool) -> Result<Obs, Failure> {
+pub fn roundtrip(shapes_in: &[Shape], pages_in: &[usize], mut garbage: Option<&mut Rng>, corrupt: bool) -> Result<Obs, Failure> {
+    // pages without any row do not exist in files: drop zero-row batches (and pages that become empty)
+    let mut shapes_v: Vec<Shape> = vec![];
+    let mut pages_v: Vec<usize> = vec![];
+    {
+        let mut i = 0;
+        for p in pages_in {
+            let keep: Vec<Shape> = shapes_in[i..i + p].iter().filter(|s| s.layers.first().map(|l| l.n).unwrap_or(s.leaf_n) > 0).cloned().collect();
+            i += p;
+            if !keep.is_empty() {
+                pages_v.push(keep.len());
+                shapes_v.extend(keep);
+            }
+        }
+    }
+    if shapes_v.is_empty() {
+        return Ok(Obs { rejected: Some("zero rows".into()), ..Default::default() });
+    }
+    let shapes: &[Shape] = &shapes_v;
+    let pages: &[usize] = &pages_v;
     let kinds = shapes[0].kinds();
     let expected: Vec<Lv> = shapes.iter().flat_map(shape_logical).collect();
     let exp_s = render_rows(&expected);
@@ -468,12 +487,50 @@ pub fn roundtrip(shapes: &[Shape], pages: &[usize], mut garbage: Option<&mut Rng
         expected: exp_s.clone(),
         ..Default::default()
     };
+    // known-defect preconditions, computed from what `serialize` returned (see NOTES.md / findings):
+    //  A: a layer is AllValidList although definition levels exist
+    //  B: several pages are unravelled together and, above a list, one page is AllValidItem where another is
+    //     NullableItem (`append_n(num_items)` uses the leaf item count)
+    //  C: a page without any visible leaf item whose (empty) leaf array still carries a validity buffer
     let flag = std::cell::Cell::new(false);
+    let flag_b = std::cell::Cell::new(false);
+    let flag_c = std::cell::Cell::new(false);
+    //  D: several pages, a page after the first has repetition but no definition levels (>= 2 list layers):
+    //     `rep_levels.truncate(offsets.len() - 1)` counts the offsets of the earlier pages as well
+    let flag_d = std::cell::Cell::new(false);
+    let meanings_seen = std::cell::RefCell::new(String::new());
     let fail = |cls: &str, what: &str, detail: String| Failure {
-        sig: if flag.get() { format!("repdef-allvalidlist-with-def-levels-{cls}") } else { format!("repdef-{cls}-{kinds}") },
+        sig: if flag_c.get() {
+            format!("repdef-zero-item-page-with-leaf-validity-{cls}")
+        } else if flag.get() {
+            format!("repdef-allvalidlist-with-def-levels-{cls}")
+        } else if flag_b.get() {
+            format!("repdef-composite-allvaliditem-above-list-{cls}")
+        } else if flag_d.get() {
+            format!("repdef-composite-later-page-without-def-levels-{cls}")
+        } else {
+            format!("repdef-{cls}-{kinds}")
+        },
         what: what.to_string(),
-        detail: format!("kinds {kinds} expected rows: {exp_s}; {detail}"),
+        detail: format!("kinds {kinds} expected rows: {exp_s}; def_meaning(inner->outer, per page) {}; {detail}", meanings_seen.borrow()),
     };
+    let has_f = shapes[0].layers.iter().any(|l| l.kind == Kind::Fsl);
+    let has_l = shapes[0].layers.iter().any(|l| l.kind == Kind::List);
+    if has_f && has_l {
+        // documented as unsupported: `decimate` is todo!("Not yet supported FSL<...List<...>>")
+        obs.rejected = Some("fixed-size-list layers together with list layers are not supported by the unraveler".into());
+        return Ok(obs);
+    }
+    if has_f && pages.len() > 1 {
+        obs.rejected = Some("structural FSL layers are only driven single-page (add_fsl has no production caller; decimate does not rescale num_items)".into());
+        return Ok(obs);
+    }
+    if expected.is_empty() {
+        obs.rejected = Some("zero rows".into());
+        return Ok(obs);
+    }
+    let mut page_meanings: Vec<Vec<DefinitionInterpretation>> = vec![];
+    let pm = std::cell::RefCell::new(&mut page_meanings);
     let r = catch_unwind(AssertUnwindSafe(|| {
         let mut unravelers = vec![];
         let mut idx = 0;
@@ -517,10 +574,36 @@ pub fn roundtrip(shapes: &[Shape], pages: &[usize], mut garbage: Option<&mut Rng
             if ser.definition_levels.is_some() && ser.def_meaning.iter().any(|m| *m == DefinitionInterpretation::AllValidList) {
                 flag.set(true);
             }
+            if !unravelers.is_empty() && ser.repetition_levels.is_some() && ser.definition_levels.is_none() && shapes[0].layers.iter().filter(|l| l.kind == Kind::List).count() >= 2 {
+                flag_d.set(true);
+            }
+            if leaf_n == 0 && shapes[idx - p..idx].iter().any(|s| s.leaf_validity.is_some() || s.layers.iter().any(|l| l.n == 0 && l.validity.is_some())) {
+                flag_c.set(true);
+            }
+            {
+                let mut g = pm.borrow_mut();
+                g.push(ser.def_meaning.clone());
+                // B: compare with the earlier pages (def_meaning is inner -> outer)
+                let last = g.len() - 1;
+                for other in 0..last {
+                    let (a, b) = (&g[other], &g[last]);
+                    let mut list_below = false;
+                    for j in 0..a.len().min(b.len()) {
+                        let (x, y) = (a[j], b[j]);
+                        if list_below && ((x == DefinitionInterpretation::AllValidItem && y == DefinitionInterpretation::NullableItem) || (y == DefinitionInterpretation::AllValidItem && x == DefinitionInterpretation::NullableItem)) {
+                            flag_b.set(true);
+                        }
+                        if x.is_list() || y.is_list() {
+                            list_below = true;
+                        }
+                    }
+                }
+            }
             if !meanings.is_empty() {
                 meanings.push('/');
             }
             meanings.push_str(&meaning_str(&ser.def_meaning));
+            *meanings_seen.borrow_mut() = meanings.clone();
             leaf_total += leaf_n;
             // like the page decoders: num_items = number of *visible* leaf items of the page
             unravelers.push(RepDefUnraveler::new(rep, def, Arc::from(ser.def_meaning.clone()), leaf_n as u64));
